@@ -17,7 +17,7 @@ from gym_gridverse.utils.fast_copy import fast_copy
 from ..runner import Obligation
 from ..stubs import SIGMA_2C, SymRng, lazy_state, same_object
 from ..symx import sym_and
-from .common import ACTIONS
+from .common import ACTIONS, held_touched, post_cells
 
 PROPERTY = 'C04'
 LEVEL = 'other'
@@ -82,9 +82,9 @@ def make_env(H, W, stochastic, counter):
 def states_equal(sx, A, B, lab):
     sx.check(sym_and(A.agent.position.y == B.agent.position.y, A.agent.position.x == B.agent.position.x) and A.agent.orientation is B.agent.orientation,
              lab + '-pose')
-    if A.agent.held_touched() or B.agent.held_touched():
+    if held_touched(A) or held_touched(B):
         sx.check(same_object(A.agent.grid_object, B.agent.grid_object), lab + '-held')
-    for k in set(A.grid.objects.cells) | set(B.grid.objects.cells):
+    for k in set(post_cells(A)) | set(post_cells(B)):
         sx.check(same_object(A.grid.objects[k[0]][k[1]], B.grid.objects[k[0]][k[1]]), lab + '-cell', str(k))
 
 
